@@ -9,7 +9,7 @@
 //   C07.bin sweep <first> <n>        `SB k hash` for blocks of 2^20 consecutive float patterns + HARNESS summary
 //   C07.bin latlines <k>             the p1 lines of lattice block k
 //   C07.bin blocklines <k>           the p1 lines of sweep block k
-//   C07.bin eval p1|u1 <bits>        one evaluation of the real code (replay)
+//   C07.bin eval <op> <arg-bits…>    one evaluation of the real code (replay), op = p1 u1 rt p2 u2 p4 u4 pv uv
 // SPECFAIL lines: glm's result violates the specification according to an oracle.
 #include <glm/glm.hpp>
 #include <glm/gtc/packing.hpp>
@@ -106,6 +106,50 @@ static void check_u1(u16 h, u32 g)
 	if (!(s && w)) { if (++n_specfail <= 20) printf("SPECFAIL u1 %u -> %u oracle=%s hw=%u\n", (unsigned)h, g, !s ? "soft" : "f16c", hw_u1(h)); }
 }
 
+
+// ---- wrappers: print the line, check every component against the oracles (a failure is reported for the wrapper with all its arguments)
+static void wrap_check(const char* line, bool pack, int n, const u32* fl, const u16* hf)
+{
+	bool s = true, h = true;
+	for (int c = 0; c < n; ++c) { ++n_eval; if (pack) { s = s && soft_ok_p1(fl[c], hf[c]); h = h && hw_ok_p1(fl[c], hf[c]); } else { s = s && soft_ok_u1(hf[c], fl[c]); h = h && hw_ok_u1(hf[c], fl[c]); } }
+	fputs(line, stdout); fputc('\n', stdout);
+	if (!(s && h)) { if (++n_specfail <= 20) printf("SPECFAIL %s oracle=%s hw=0\n", line, !s ? "soft" : "f16c"); }
+}
+static void do_p2(const u32* a)
+{
+	glm::uint p = glm::packHalf2x16(glm::vec2(f_of(a[0]), f_of(a[1]))); u16 h[2] = { (u16)p, (u16)(p >> 16) };
+	char b[256]; snprintf(b, sizeof b, "p2 %u %u -> %u", a[0], a[1], p); wrap_check(b, true, 2, a, h);
+}
+static void do_u2(u32 v)
+{
+	glm::vec2 r = glm::unpackHalf2x16(v); u16 h[2] = { (u16)v, (u16)(v >> 16) }; u32 f[2] = { b_of(r.x), b_of(r.y) };
+	char b[256]; snprintf(b, sizeof b, "u2 %u -> %u %u", v, f[0], f[1]); wrap_check(b, false, 2, f, h);
+}
+static void do_p4(const u32* a)
+{
+	glm::uint64 p = glm::packHalf4x16(glm::vec4(f_of(a[0]), f_of(a[1]), f_of(a[2]), f_of(a[3]))); u16 h[4] = { (u16)p, (u16)(p >> 16), (u16)(p >> 32), (u16)(p >> 48) };
+	char b[256]; snprintf(b, sizeof b, "p4 %u %u %u %u -> %llu", a[0], a[1], a[2], a[3], (unsigned long long)p); wrap_check(b, true, 4, a, h);
+}
+static void do_u4(u64 v)
+{
+	glm::vec4 r = glm::unpackHalf4x16(v); u16 h[4] = { (u16)v, (u16)(v >> 16), (u16)(v >> 32), (u16)(v >> 48) }; u32 f[4] = { b_of(r.x), b_of(r.y), b_of(r.z), b_of(r.w) };
+	char b[256]; snprintf(b, sizeof b, "u4 %llu -> %u %u %u %u", (unsigned long long)v, f[0], f[1], f[2], f[3]); wrap_check(b, false, 4, f, h);
+}
+template<int L> static void pvL(const u32* a, u16* h) { glm::vec<L, float, glm::defaultp> v; for (int c = 0; c < L; ++c) v[c] = f_of(a[c]); glm::vec<L, glm::uint16, glm::defaultp> p = glm::packHalf(v); for (int c = 0; c < L; ++c) h[c] = p[c]; }
+template<int L> static void uvL(const u16* q, u32* f) { glm::vec<L, glm::uint16, glm::defaultp> v; for (int c = 0; c < L; ++c) v[c] = q[c]; glm::vec<L, float, glm::defaultp> r = glm::unpackHalf(v); for (int c = 0; c < L; ++c) f[c] = b_of(r[c]); }
+static void do_pv(int n, const u32* a)
+{
+	u16 h[4]; if (n == 1) pvL<1>(a, h); else if (n == 2) pvL<2>(a, h); else if (n == 3) pvL<3>(a, h); else pvL<4>(a, h);
+	std::string l = "pv"; for (int c = 0; c < n; ++c) l += " " + std::to_string(a[c]); l += " ->"; for (int c = 0; c < n; ++c) l += " " + std::to_string((unsigned)h[c]);
+	wrap_check(l.c_str(), true, n, a, h);
+}
+static void do_uv(int n, const u16* q)
+{
+	u32 f[4]; if (n == 1) uvL<1>(q, f); else if (n == 2) uvL<2>(q, f); else if (n == 3) uvL<3>(q, f); else uvL<4>(q, f);
+	std::string l = "uv"; for (int c = 0; c < n; ++c) l += " " + std::to_string((unsigned)q[c]); l += " ->"; for (int c = 0; c < n; ++c) l += " " + std::to_string(f[c]);
+	wrap_check(l.c_str(), false, n, f, q);
+}
+
 static const u64 FNV0 = 0xcbf29ce484222325ull, FNVP = 0x100000001b3ull;
 static const u32 LATLOW[5] = { 0, 0x0FFF, 0x1000, 0x1001, 0x1FFF };
 
@@ -133,7 +177,7 @@ static u32 rand_float()
 	u64 r = rnd(); u32 x = (u32)(r >> 32);
 	switch (r & 7) {
 	case 0: case 1: return x;                                                     // uniform bits
-	case 2: return (x & 0x80000000u) | ((100u + (x >> 8) % 46u) << 23) | (x & 0x7fffffu & ~0u); // half range exponents 100..145
+	case 2: return (x & 0x80000000u) | ((100u + (x >> 8) % 46u) << 23) | (x & 0x7fffffu);           // half range exponents 100..145
 	case 3: return (x & 0xffffe000u) | 0x1000u | ((x & 3) == 0 ? (x >> 2 & 1) : 0);               // at / next to a tie
 	case 4: return (x & 0x80000000u) | ((102u + (x >> 8) % 12u) << 23) | (x & 0x7fffffu);        // half-subnormal range
 	case 5: return (x & 0x80000000u) | (0x477fe000u + (x & 0x3fffu));                            // overflow boundary
@@ -158,25 +202,9 @@ int main(int argc, char** argv)
 		for (int i = 0; i < 4000; ++i) {
 			u32 a[4] = { rand_float(), rand_float(), rand_float(), rand_float() };
 			u16 q[4] = { (u16)rnd(), (u16)rnd(), (u16)rnd(), (u16)rnd() };
-			{ glm::uint p = glm::packHalf2x16(glm::vec2(f_of(a[0]), f_of(a[1]))); printf("p2 %u %u -> %u\n", a[0], a[1], p);
-			  check_p1(a[0], (u16)p); check_p1(a[1], (u16)(p >> 16)); }
-			{ u32 v = (u32)q[0] | ((u32)q[1] << 16); glm::vec2 r = glm::unpackHalf2x16(v); printf("u2 %u -> %u %u\n", v, b_of(r.x), b_of(r.y));
-			  check_u1(q[0], b_of(r.x)); check_u1(q[1], b_of(r.y)); }
-			{ glm::uint64 p = glm::packHalf4x16(glm::vec4(f_of(a[0]), f_of(a[1]), f_of(a[2]), f_of(a[3]))); printf("p4 %u %u %u %u -> %llu\n", a[0], a[1], a[2], a[3], (unsigned long long)p);
-			  for (int c = 0; c < 4; ++c) check_p1(a[c], (u16)(p >> (16 * c))); }
-			{ u64 v = (u64)q[0] | ((u64)q[1] << 16) | ((u64)q[2] << 32) | ((u64)q[3] << 48); glm::vec4 r = glm::unpackHalf4x16(v);
-			  printf("u4 %llu -> %u %u %u %u\n", (unsigned long long)v, b_of(r.x), b_of(r.y), b_of(r.z), b_of(r.w));
-			  check_u1(q[0], b_of(r.x)); check_u1(q[1], b_of(r.y)); check_u1(q[2], b_of(r.z)); check_u1(q[3], b_of(r.w)); }
-			{ glm::u16vec1 p = glm::packHalf(glm::vec1(f_of(a[0]))); printf("pv %u -> %u\n", a[0], (unsigned)p.x);
-			  glm::vec1 r = glm::unpackHalf(glm::u16vec1(q[0])); printf("uv %u -> %u\n", (unsigned)q[0], b_of(r.x)); }
-			{ glm::u16vec2 p = glm::packHalf(glm::vec2(f_of(a[0]), f_of(a[1]))); printf("pv %u %u -> %u %u\n", a[0], a[1], (unsigned)p.x, (unsigned)p.y);
-			  glm::vec2 r = glm::unpackHalf(glm::u16vec2(q[0], q[1])); printf("uv %u %u -> %u %u\n", (unsigned)q[0], (unsigned)q[1], b_of(r.x), b_of(r.y)); }
-			{ glm::u16vec3 p = glm::packHalf(glm::vec3(f_of(a[0]), f_of(a[1]), f_of(a[2]))); printf("pv %u %u %u -> %u %u %u\n", a[0], a[1], a[2], (unsigned)p.x, (unsigned)p.y, (unsigned)p.z);
-			  glm::vec3 r = glm::unpackHalf(glm::u16vec3(q[0], q[1], q[2])); printf("uv %u %u %u -> %u %u %u\n", (unsigned)q[0], (unsigned)q[1], (unsigned)q[2], b_of(r.x), b_of(r.y), b_of(r.z)); }
-			{ glm::u16vec4 p = glm::packHalf(glm::vec4(f_of(a[0]), f_of(a[1]), f_of(a[2]), f_of(a[3]))); printf("pv %u %u %u %u -> %u %u %u %u\n", a[0], a[1], a[2], a[3], (unsigned)p.x, (unsigned)p.y, (unsigned)p.z, (unsigned)p.w);
-			  for (int c = 0; c < 4; ++c) check_p1(a[c], p[c]);
-			  glm::vec4 r = glm::unpackHalf(glm::u16vec4(q[0], q[1], q[2], q[3])); printf("uv %u %u %u %u -> %u %u %u %u\n", (unsigned)q[0], (unsigned)q[1], (unsigned)q[2], (unsigned)q[3], b_of(r.x), b_of(r.y), b_of(r.z), b_of(r.w));
-			  for (int c = 0; c < 4; ++c) check_u1(q[c], b_of(r[c])); }
+			do_p2(a); do_u2((u32)q[0] | ((u32)q[1] << 16)); do_p4(a);
+			do_u4((u64)q[0] | ((u64)q[1] << 16) | ((u64)q[2] << 32) | ((u64)q[3] << 48));
+			for (int n = 1; n <= 4; ++n) { do_pv(n, a); do_uv(n, q); }
 		}
 		// boundary floats: every exponent with the extreme significands, both signs
 		for (u32 e = 0; e < 256; ++e) for (u32 s = 0; s < 2; ++s) {
@@ -194,10 +222,18 @@ int main(int argc, char** argv)
 	else if (mode == "blocklines" && argc >= 3) sweep_block((u32)strtoul(argv[2], 0, 10), true);
 	else if (mode == "eval" && argc >= 4) {
 		std::string op = argv[2]; u32 x = (u32)strtoul(argv[3], 0, 10);
-		if (op == "p1") { u16 r = glm_p1(x); printf("%u soft_ok=%d f16c_ok=%d f16c=%u\n", (unsigned)r, (int)soft_ok_p1(x, r), (int)hw_ok_p1(x, r), (unsigned)hw_p1(x)); }
-		else if (op == "u1") { u32 g = glm_u1((u16)x); printf("%u soft_ok=%d f16c_ok=%d f16c=%u\n", g, (int)soft_ok_u1((u16)x, g), (int)hw_ok_u1((u16)x, g), hw_u1((u16)x)); }
+		u32 a[4] = { 0, 0, 0, 0 }; u16 q[4] = { 0, 0, 0, 0 }; int n = argc - 3; if (n > 4) n = 4;
+		for (int c = 0; c < n; ++c) { a[c] = (u32)strtoul(argv[3 + c], 0, 10); q[c] = (u16)a[c]; }
+		if (op == "p1") { u16 r = glm_p1(x); printf("%u soft_ok=%d f16c_ok=%d f16c=%u\n", (unsigned)r, (int)soft_ok_p1(x, r), (int)hw_ok_p1(x, r), (unsigned)hw_p1(x)); return 0; }
+		else if (op == "u1") { u32 g = glm_u1((u16)x); printf("%u soft_ok=%d f16c_ok=%d f16c=%u\n", g, (int)soft_ok_u1((u16)x, g), (int)hw_ok_u1((u16)x, g), hw_u1((u16)x)); return 0; }
+		else if (op == "rt") { printf("%u\n", (unsigned)glm::packHalf1x16(glm::unpackHalf1x16((u16)x))); return 0; }
+		else if (op == "p2") do_p2(a);
+		else if (op == "u2") do_u2(x);
+		else if (op == "p4") do_p4(a);
+		else if (op == "u4") do_u4(strtoull(argv[3], 0, 10));
+		else if (op == "pv") do_pv(n, a);
+		else if (op == "uv") do_uv(n, q);
 		else return 2;
-		return 0;
 	}
 	else { fprintf(stderr, "usage: quick <seed> <nrandom> | sweep <first> <n> | latlines <k> | blocklines <k> | eval p1|u1 <bits>\n"); return 2; }
 	printf("HARNESS evals=%llu specfail=%llu f16c=%d differs_from_f16c=%llu\n", (unsigned long long)n_eval, (unsigned long long)n_specfail, have_f16c, (unsigned long long)n_hwdiff);
